@@ -45,6 +45,9 @@ type mapRangeSite struct {
 	Shape      string
 	ValueCalls bool
 	Line       int
+	Effects    []string          // transitive effects of the body (ex_effects.go), once per element
+	ExitEff    []string          // effects inside return statements (at most once)
+	Witness    map[string]string // effect -> call chain that produces it
 }
 
 func exprString(fset *token.FileSet, e ast.Node) string {
@@ -307,6 +310,10 @@ func classifyMapRange(info *types.Info, rs *ast.RangeStmt, following []ast.Stmt)
 func init() {
 	register(Emitter{File: "MapRanges.lean", Run: func(w *World) (string, error) {
 		info := w.Info()
+		ew, err := w.Effects()
+		if err != nil {
+			return "", err
+		}
 		var sites []mapRangeSite
 		for _, f := range w.Zygo.Syntax {
 			fname := filepath.Base(w.Fset.Position(f.Pos()).Filename)
@@ -316,8 +323,10 @@ func init() {
 			for _, d := range f.Decls {
 				var fn string
 				var body ast.Node
+				var encl *ast.FuncDecl
 				switch x := d.(type) {
 				case *ast.FuncDecl:
+					encl = x
 					fn = x.Name.Name
 					if x.Recv != nil && len(x.Recv.List) == 1 {
 						fn = recvName(x.Recv.List[0].Type) + "." + fn
@@ -345,9 +354,17 @@ func init() {
 						return
 					}
 					shape, vc := classifyMapRange(info, rs, following)
+					eff, exitEff, wit := ew.bodyEffects(encl, rs.Body)
+					witness := map[string]string{}
+					for _, x := range effNames {
+						if eff&x.e != 0 {
+							witness[x.n] = wit[x.e]
+						}
+					}
 					sites = append(sites, mapRangeSite{File: fname, Func: fn, Ord: ord, Operand: exprString(w.Fset, rs.X),
 						KeyUsed: !isBlank(rs.Key), ValUsed: !isBlank(rs.Value),
-						Shape: shape, ValueCalls: vc, Line: w.Fset.Position(rs.Pos()).Line})
+						Shape: shape, ValueCalls: vc, Line: w.Fset.Position(rs.Pos()).Line,
+						Effects: effectList(eff), ExitEff: effectList(exitEff), Witness: witness})
 					ord++
 				}
 				visitList = func(list []ast.Stmt) {
@@ -422,19 +439,35 @@ func init() {
 		b.WriteString("namespace ZygoVerif.Generated.MapRanges\n\n")
 		b.WriteString("/-- Syntactic shape of the loop body, computed by extract/ex_mapranges.go. -/\n")
 		b.WriteString("inductive Shape where\n  | firstHit | emits | mapWrite | counts | collectSort | calls | other\n  deriving DecidableEq, Repr\n\n")
-		b.WriteString("structure Site where\n  file : String\n  func : String\n  ord : Nat\n  operand : String\n  keyUsed : Bool\n  valUsed : Bool\n  shape : Shape\n  valueCalls : Bool\n  deriving DecidableEq, Repr\n\n")
+		b.WriteString("/-- What the loop body can do besides its syntactic shape, TRANSITIVELY through the functions\nof package zygo it calls (extract/ex_effects.go): `interns` allocates symbol numbers in call order,\n`fieldAppend` grows a slice held in a struct field / package-level variable, `fieldCounter` bumps a\ncounter held there, `emits` prints, `globalWrite` stores into a package-level variable, `dynCall`\ncalls a function value (callee unknown). -/\n")
+		b.WriteString("inductive Effect where\n  | interns | fieldAppend | fieldCounter | emits | globalWrite | dynCall\n  deriving DecidableEq, Repr\n\n")
+		b.WriteString("structure Site where\n  file : String\n  func : String\n  ord : Nat\n  operand : String\n  keyUsed : Bool\n  valUsed : Bool\n  shape : Shape\n  valueCalls : Bool\n  effects : List Effect\n  exitEffects : List Effect\n  deriving DecidableEq, Repr\n\n")
 		b.WriteString("/-- Line-independent identity of a site: enclosing function + ordinal of the map walk in it. -/\n")
 		b.WriteString("def Site.id (s : Site) : String × Nat := (s.func, s.ord)\n\n")
 		var elems []string
 		for _, s := range sites {
-			elems = append(elems, fmt.Sprintf("\n  ⟨%s, %s, %d, %s, %v, %v, .%s, %v⟩", LeanString(s.File), LeanString(s.Func), s.Ord,
-				LeanString(s.Operand), s.KeyUsed, s.ValUsed, s.Shape, s.ValueCalls))
+			var effs []string
+			for _, e := range s.Effects {
+				effs = append(effs, "."+e)
+			}
+			var xeffs []string
+			for _, e := range s.ExitEff {
+				xeffs = append(xeffs, "."+e)
+			}
+			elems = append(elems, fmt.Sprintf("\n  ⟨%s, %s, %d, %s, %v, %v, .%s, %v, [%s], [%s]⟩", LeanString(s.File), LeanString(s.Func), s.Ord,
+				LeanString(s.Operand), s.KeyUsed, s.ValUsed, s.Shape, s.ValueCalls, strings.Join(effs, ", "), strings.Join(xeffs, ", ")))
 		}
 		b.WriteString(LeanList("mapRanges", "Site", elems, 120))
 		fmt.Fprintf(&b, "\ndef siteCount : Nat := %d\n", len(sites))
 		b.WriteString("\n-- today's line numbers (informative only; not part of the identity):\n")
 		for _, s := range sites {
 			fmt.Fprintf(&b, "--   %s:%d  %s#%d  range %s  [%s%s]\n", s.File, s.Line, s.Func, s.Ord, s.Operand, s.Shape, map[bool]string{true: " +valueCalls", false: ""}[s.ValueCalls])
+			for _, e := range s.Effects {
+				fmt.Fprintf(&b, "--       %s: %s\n", e, s.Witness[e])
+			}
+			if len(s.ExitEff) > 0 {
+				fmt.Fprintf(&b, "--       on leaving (inside return): %s\n", strings.Join(s.ExitEff, " "))
+			}
 		}
 		b.WriteString("end ZygoVerif.Generated.MapRanges\n")
 		return b.String(), nil
